@@ -396,7 +396,7 @@ def once_parts(rng):
             plan.append(["i", lo, hi])
             return "randint(%d, %d)" % (lo, hi)
 
-        k = r.choice(["text", "text", "attr", "var", "loop", "two", "group-attr", "id", "reuse-attr", "if", "comment", "class"])
+        k = r.choice(["text", "text", "attr", "var", "loop", "two", "group-attr", "id", "reuse-attr", "if", "comment", "class", "loop-count", "loop-start"])
         if k == "text":
             xml, obs = '<text id="o%d" xy="0 %d" text="[{{%s}}]"/>' % (i, i, call()), ["o%d" % i, "text", 1]
         elif k == "two":
@@ -411,6 +411,18 @@ def once_parts(rng):
             entry = plan.pop()
             plan += [entry] * c
             xml, obs = '<g id="o%d"><loop count="%d"><text xy="0 %d" text="[{{%s}}]"/></loop></g>' % (i, c, i, one), ["o%d" % i, "loop", c]
+        elif k == "loop-count":
+            # the occurrence sits in the loop's control attribute: drawn once when the loop is entered; the number of passes shows it
+            lo = r.randint(0, 2)
+            hi = lo + r.randint(0, 3)
+            plan.append(["i", lo, hi])
+            xml, obs = '<g id="o%d"><loop count="{{randint(%d, %d)}}"><text xy="0 %d" text="[x]"/></loop></g>' % (i, lo, hi, i), ["o%d" % i, "passes", 1]
+        elif k == "loop-start":
+            lo = r.randint(-5, 5)
+            hi = lo + r.randint(0, 9)
+            plan.append(["i", lo, hi])
+            xml, obs = '<g id="o%d"><loop count="%d" loop-var="lv%d" start="{{randint(%d, %d)}}" step="100"><text xy="0 %d" text="[$lv%d]"/></loop></g>' % (
+                i, r.randint(1, 3), i, lo, hi, i, i), ["o%d" % i, "first-text", 1]
         elif k == "if":
             t = r.randint(0, 1)
             one = call()
@@ -489,6 +501,11 @@ def once_eval(ctx, case, seed, parts, report):
                 twice.append((p["kind"], ts))
         elif kind == "loop":
             got += [t.all_text()[1:-1] for t in el.find_all("text")]
+        elif kind == "passes":
+            got.append(str(len(el.find_all("text"))))
+        elif kind == "first-text":
+            ts = [t.all_text()[1:-1] for t in el.find_all("text")]
+            got.append(ts[0] if ts else "?")
     if twice:
         return ("value-re-evaluated", twice, got, expv)
     if draws != len(plan):
